@@ -373,7 +373,92 @@ def rule_components(ctx):
                 'angular momentum, eccentricity vector) are one formula under an axis permutation', stats['groups'], floor=10, samples=stats['samples'])
 
 
+def _cx(t, env):
+    """token tree -> sympy with an explicit environment (rendered leaf -> expression); fabs, sqrt understood."""
+    import sympy as sp
+    k = t[0]
+    if k == 'lit':
+        return sp.nsimplify(t[1], rational=True)
+    if k in ('id', 'mem', 'idx'):
+        key = render(t)
+        if key not in env:
+            raise ValueError('unbound %s' % key)
+        return env[key]
+    if k == 'bin':
+        a, b = _cx(t[2], env), _cx(t[3], env)
+        return {'+': lambda: a + b, '-': lambda: a - b, '*': lambda: a * b, '/': lambda: a / b}[t[1]]()
+    if k == 'un' and t[1] == '-':
+        return -_cx(t[2], env)
+    if k == 'cast':
+        return _cx(t[2], env)
+    if k == 'call':
+        f = render(t[1])
+        args = [_cx(a, env) for a in t[2:]]
+        if f in ('fabs', '__builtin_fabs'):
+            return sp.Abs(args[0])
+        if f == 'sqrt':
+            return sp.sqrt(args[0])
+        raise ValueError('call ' + f)
+    raise ValueError('kind ' + k)
+
+
+def rule_pericentre_time(ctx):
+    """R11.8: the time of pericentre passage is accepted as `M = n (t - T)` with n = sqrt(G M/|a|^3) >= 0 and reported by
+    reb_orbit_from_particle as T = t - M/<mean motion>. The two must be inverse for bound (a > 0) and unbound (a < 0)
+    orbits alike: composing the reported T with the accepted formula must give back T as an identity in (a, mu, t, T)."""
+    import sympy as sp
+    tu = cfront.load_tu('tools.c')
+    ffmt = tu.func('reb_particle_from_fmt_errV')
+    forb = tu.func('reb_orbit_from_particle_err')
+    mu = sp.Symbol('mu', positive=True)
+    t, T = sp.symbols('t T', real=True)
+    n = 0
+    samples = []
+    for sign, label in ((1, 'bound (a>0)'), (-1, 'unbound (a<0)')):
+        apos = sp.Symbol('A', positive=True)
+        a = sign * apos
+        # forward: n and M from T in the argument parser
+        nf = Mf = None
+        Gs, Mp, m_ = sp.symbols('G Mp m', positive=True)
+        envf = {'r.G': Gs, 'primary.m': Mp, 'm': m_, 'a': a, 'r.t': t, 'T': T}
+        for d in walk(cfront.body(ffmt)):
+            if d.get('kind') == 'VarDecl' and d.get('name') == 'n' and 'init' in d:
+                init_ = [c for c in d.get('inner', []) if c.get('kind') not in ('FullComment',)]
+                nf = (_cx(toks(init_[-1]), envf), line_of(d))
+        anchor(nf is not None, 'mean motion n in reb_particle_from_fmt_errV')
+        envf['n'] = nf[0]
+        for e in walk(cfront.body(ffmt)):
+            if is_assign(e) and e['opcode'] == '=' and render(e['inner'][0]) == 'M' and 'T' in render(e['inner'][1]):
+                Mf = (_cx(toks(e['inner'][1]), envf), line_of(e))
+        anchor(Mf is not None, 'M from T in reb_particle_from_fmt_errV')
+        Mfwd = Mf[0].subs(Gs * (Mp + m_), mu).subs(Gs, mu / (Mp + m_))
+        # inverse: o.n and o.T in the orbit calculation
+        on = oT = None
+        envi = {'mu': mu, 'o.a': a}
+        for e in walk(cfront.body(forb)):
+            if is_assign(e) and e['opcode'] == '=' and render(e['inner'][0]) == 'o.n' and 'nan' not in render(e['inner'][1]):
+                on = (_cx(toks(e['inner'][1]), envi), line_of(e))
+        anchor(on is not None, 'mean motion o.n in reb_orbit_from_particle_err')
+        Msym = sp.Symbol('Mcur', real=True)
+        envi.update({'o.n': on[0], 'o.M': Msym, 't0': t})
+        for e in walk(cfront.body(forb)):
+            if is_assign(e) and e['opcode'] == '=' and render(e['inner'][0]) == 'o.T' and 'nan' not in render(e['inner'][1]):
+                oT = (_cx(toks(e['inner'][1]), envi), line_of(e))
+        anchor(oT is not None, 'pericentre time o.T in reb_orbit_from_particle_err')
+        n += 1
+        res = sp.simplify(oT[0].subs(Msym, sp.simplify(Mfwd)) - T)
+        where = 'src/tools.c:%s reb_orbit_from_particle_err / src/tools.c:%s reb_particle_from_fmt_errV' % (oT[1], Mf[1])
+        if res != 0:
+            ctx.report('R11.8', 'T:roundtrip:%s' % ('bound' if sign > 0 else 'unbound'), where,
+                       'for %s orbits the reported pericentre time, fed back through M = n (t - T), does not return the same T: difference %s (mean motion reported as %s, accepted as %s)'
+                       % (label, res, sp.simplify(on[0]), sp.simplify(nf[0].subs(Gs * (Mp + m_), mu))))
+        else:
+            samples.append('%s: T -> M = n(t-T) -> T is the identity (%s)' % (label, where))
+    ctx.covered('R11.8', 'pericentre time: the reporting formula inverts the accepting formula for bound and unbound orbits', n, floor=2, samples=samples)
+
+
 def run(ctx):
+    rule_pericentre_time(ctx)
     rule_components(ctx)
     errs = rule_argument_classes(ctx)
     rule_error_codes(ctx, errs)
